@@ -1790,3 +1790,63 @@ def c13(run):
         parts = l.split(" ")
         if not (len(parts[3]) > 8 or parts[3] == "GenerateRandomOverflowError"):
             run.violation("IBAN.random", parts[:3], parts[3], "a valid IBAN or the overflow error", "subprocess draw")
+
+
+# --------------------------------------------------------------------------- C03
+@prop("C03",
+      rule="valid IBANs of every country (random, letter-rich where the structure allows letters, with registry "
+           "banks): every position >= 2 x same-kind replacement characters (quick: a sample of positions and "
+           "characters, thorough: all) and every adjacent same-kind transposition incl. the country letters and "
+           "the check-digit/BBAN boundary; interleaved with failing from_bban / generate calls; expected: "
+           "rejected; non-trivial = distinct mutated text",
+      note="detection theorems proved on the model's arithmetic for all lengths; model = code by the C01 "
+           "correspondence and by this stream")
+def c03(run):
+    S = Streams(run.seed * 1000 + 3)
+    r = S.r
+    texts, ops = [], []
+    per = run.scale(3, 50)
+    for cc in S.countries:
+        for j in range(per):
+            if j % 3 == 2:      # letter-rich: long numeric expansions
+                b = "".join((r.choice(UPPER) if k == "c" and r.random() < 0.95 else S.draw_class(k))
+                            for n, k in S.spec_items(cc) for _ in range(n))
+                i = cc + iban_check_digits(cc, b) + b
+            else:
+                i = S.iban(cc, with_bank=(j % 3 == 1)).upper()
+            muts = []
+            positions = list(range(2, len(i)))
+            if run.tier != "thorough":
+                positions = r.sample(positions, min(len(positions), 7)) + [2, 3, 4, len(i) - 1]
+            for p in positions:
+                pool = DIGITS if i[p] in DIGITS else UPPER
+                alts = [x for x in pool if x != i[p]]
+                if run.tier != "thorough":
+                    alts = r.sample(alts, 3)
+                for x in alts:
+                    muts.append(i[:p] + x + i[p + 1:])
+            for p in range(len(i) - 1):
+                a, b2 = i[p], i[p + 1]
+                if a != b2 and ((a in DIGITS and b2 in DIGITS) or (a in UPPER and b2 in UPPER)):
+                    muts.append(i[:p] + b2 + a + i[p + 2:])
+            texts.append(("valid", i))
+            texts += [("mutant", m) for m in muts]
+    n_fail = 0
+    for k, (kind, t) in enumerate(texts):
+        if k % 40 == 0:     # failing assembly calls in between (they must not disturb later validations)
+            ops.append(["iban.from_bban", hx("DE"), hx("3704004405320130")])
+            ops.append(["iban.generate", hx("BE"), hx("539"), hx("00754703499"), "-"])
+            n_fail += 2
+        ops.append(["iban.new", hx(t), "F", "F"])
+    reals, _ = run.correspond("typing errors", ops, nontrivial_iban)
+    it = iter(texts)
+    for f, a in zip(ops, reals):
+        if f[0] != "iban.new":
+            continue
+        kind, t = next(it)
+        if kind == "valid" and not a.startswith("ok "):
+            run.violation("IBAN(text)", [t], a, "accepted (harness-built valid IBAN)", "base case", op=f)
+        if kind == "mutant" and a.startswith("ok "):
+            run.violation("IBAN(text with one typing error)", [t], a, "rejected",
+                          "single same-kind substitution / adjacent transposition of a valid IBAN", op=f,
+                          expected_line="err")
